@@ -19,6 +19,7 @@ import (
 	"flag"
 	"fmt"
 	"go/ast"
+	"go/build"
 	"go/format"
 	"go/importer"
 	"go/parser"
@@ -107,6 +108,9 @@ func main() {
 			name := e.Name()
 			if e.IsDir() || !strings.HasSuffix(name, ".go") || strings.HasSuffix(name, "_test.go") {
 				continue
+			}
+			if ok, _ := build.Default.MatchFile(abs, name); !ok {
+				continue // excluded by build constraints on this platform
 			}
 			path := filepath.Join(abs, name)
 			src, err := os.ReadFile(path)
